@@ -86,6 +86,8 @@ def lazy_vs_eager(run: Any) -> list[Any]:
                     out.append((f"C09 {sc.name} eagerly parsed node missing after lazy expansion", f"{name.split('.vms.')[0]} is parsed up front but never appears when the single worker expands the graph lazily", {}))
     out += structure.worker_copies(run.graph, sc.name)
     out += structure.visits_kept(run)
+    if run.crash is None:
+        out += structure.flat_expansions(run.graph, sc.name)
     return out
 
 
@@ -97,9 +99,12 @@ def plans(tier: str) -> list[dict[str, Any]]:
         P("lazy=eager: G5 restricted worker", trav.menu("G5"), [lazy_vs_eager], K=1, statuses=["PASS"]),
         P("lazy=eager: G10 a test reachable through a nested set and as another test's setup", trav.menu("G10"), [lazy_vs_eager], K=1, statuses=["PASS"], pool_fixed={**trav.DEEP_PRESENT, "linux_virtuser": ["shared"], "windows_virtuser": ["shared"], "connect": ["shared"]}),
         P("lazy=eager: G4h a cloned test and its dependant both selected, 2 workers", trav.menu("G4h"), [lazy_vs_eager], K=1, statuses=["PASS"], pool_fixed={**trav.DEEP_PRESENT, "linux_virtuser": ["shared"], "windows_virtuser": ["shared"], "connect": ["shared"]}),
+        P("lazy=eager: G4g a cloned test and its dependant both selected, 1 worker", trav.menu("G4g"), [lazy_vs_eager], K=1, statuses=["PASS"], pool_fixed={**trav.DEEP_PRESENT, "linux_virtuser": ["shared"], "windows_virtuser": ["shared"], "connect": ["shared"]}),
+        P("lazy=eager: G4j the dependant selected before the cloned test, 1 worker", trav.menu("G4j"), [lazy_vs_eager], K=1, statuses=["PASS"], pool_fixed={**trav.DEEP_PRESENT, "linux_virtuser": ["shared"], "windows_virtuser": ["shared"], "connect": ["shared"]}),
     ]
     if tier == "thorough":
         out += [
+            P("lazy=eager: G4k the dependant selected before the cloned test, 2 workers", trav.menu("G4k"), [lazy_vs_eager], K=1, statuses=["PASS"], pool_fixed={**trav.DEEP_PRESENT, "linux_virtuser": ["shared"], "windows_virtuser": ["shared"], "connect": ["shared"]}),
             P("lazy=eager: G4 cloning", trav.menu("G4"), [lazy_vs_eager], K=1, statuses=["PASS"], pool_fixed={**trav.DEEP_PRESENT, "linux_virtuser": ["shared"], "windows_virtuser": ["shared"]}),
             P("lazy=eager: G2 3 workers", trav.menu("G2x3"), [lazy_vs_eager], K=1, statuses=["PASS", "FAIL"], max_nonpass=1),
             P("lazy=eager: G6 clusters", trav.menu("G6b"), [lazy_vs_eager], K=1, statuses=["PASS"], pool_fixed={"install": ["shared"]}),
